@@ -247,6 +247,10 @@ func c18Funcs(consts map[string]any, nilText bool) map[string]func(args []any) (
 			case string:
 				i, err := strconv.ParseInt(v, 10, 32)
 				if err != nil || strings.HasPrefix(v, "+") {
+					if w, err := strconv.ParseInt(v, 10, 64); err == nil && !strings.HasPrefix(v, "+") {
+						// beyond 32 bits (and possibly beyond 2^53): the integer the text spells, digit for digit
+						return exactInt{strconv.FormatInt(w, 10)}, nil
+					}
 					return nil, unspec("CHANGETYPE of non-integer text to integer")
 				}
 				return float64(i), nil
@@ -546,6 +550,10 @@ func genC18(t *rapid.T) any {
 			i := rapid.SampledFrom([]int{0, 1, -1, 42, -77, 99999, 1000000, 12345678, -40000000, 2147483647}).Draw(t, "i")
 			if rapid.Bool().Draw(t, "astext") {
 				v = strconv.Itoa(i)
+				if rapid.IntRange(0, 3).Draw(t, "wide") == 0 {
+					// integer texts beyond 32 bits and beyond 2^53
+					v = rapid.SampledFrom([]string{"2147483648", "4294967296", "-4294967297", "9007199254740992", "9007199254740993", "-9007199254740993", "1234567890123456789", "9223372036854775807", "-9223372036854775808", "-9223372036854775807"}).Draw(t, "widetext")
+				}
 			} else {
 				v = float64(i)
 			}
@@ -667,7 +675,40 @@ func unicodeLetters() []rune {
 }
 
 // c18Match compares an engine value with a reference outcome (which may be opaque).
+// exactInt: the expected value is the integer with decimal text S, held in any Go numeric type that holds it exactly.
+type exactInt struct{ S string }
+
+func c18IntText(v any) (string, bool) {
+	switch n := v.(type) {
+	case int:
+		return strconv.FormatInt(int64(n), 10), true
+	case int64:
+		return strconv.FormatInt(n, 10), true
+	case int32:
+		return strconv.FormatInt(int64(n), 10), true
+	case uint64:
+		return strconv.FormatUint(n, 10), true
+	case uint:
+		return strconv.FormatUint(uint64(n), 10), true
+	case float64:
+		if n == math.Trunc(n) && math.Abs(n) < 1<<53 {
+			return strconv.FormatFloat(n, 'f', 0, 64), true
+		}
+	case *float64:
+		if n != nil {
+			return c18IntText(*n)
+		}
+	}
+	return "", false
+}
+
 func c18Match(got any, want any) string {
+	if w, ok := want.(exactInt); ok {
+		if s, ok := c18IntText(got); !ok || s != w.S {
+			return fmt.Sprintf("expected the integer %s, got %T(%v)", w.S, got, got)
+		}
+		return ""
+	}
 	got = val.Norm(got)
 	switch w := want.(type) {
 	case hashOpaque:
@@ -813,13 +854,20 @@ func c18Judge(c *C18Case, nilText bool) Result {
 			res.Violation = fmt.Sprintf("%s\n  expected two rows, got %s", ctx, out.Describe())
 			return res
 		}
-		for _, r := range out.Rows {
+		for ri, r := range out.Rows {
 			m, _ := r.(map[string]any)
 			if m == nil {
 				res.Violation = fmt.Sprintf("%s\n  row is %s", ctx, val.JSON(r))
 				return res
 			}
-			if d := c18Match(m["v"], want); d != "" {
+			gv := m["v"]
+			if _, ok := want.(exactInt); ok && ri < len(out.Raw) {
+				// compared digit for digit on the value as the engine returned it
+				if rm, ok := out.Raw[ri].(map[string]any); ok {
+					gv = rm["v"]
+				}
+			}
+			if d := c18Match(gv, want); d != "" {
 				res.Violation = fmt.Sprintf("%s\n  %s", ctx, d)
 				return res
 			}
@@ -842,7 +890,7 @@ func c18Judge(c *C18Case, nilText bool) Result {
 				return res
 			}
 			switch v.(type) {
-			case encOpaque, hashOpaque, strOfFloat, anyNumber:
+			case encOpaque, hashOpaque, strOfFloat, anyNumber, exactInt:
 				return res
 			}
 			args[i] = val.Copy(v)
